@@ -179,9 +179,79 @@ def apply_hist(ops):
     return idx, path
 
 
+def get_odb():
+    """one scratch object store per run, holding the directory (tree) objects of the lazy stream"""
+    from dvc_objects.fs.local import LocalFileSystem
+
+    from dvc_data.hashfile.db import HashFileDB
+
+    if _DISK.get("odb") is None:
+        path = os.path.join(_DISK["dir"], "odb")
+        os.makedirs(path, exist_ok=True)
+        _DISK["odb"] = HashFileDB(LocalFileSystem(), path)
+    return _DISK["odb"]
+
+
+def tree_listing(files):
+    """files: [[relkey, oid, size|None, isexec]] -> (raw bytes of the .dir object, its oid)"""
+    lst = []
+    for rel, oid, size, isexec in sorted(files, key=lambda f: "/".join(f[0])):
+        d = {"md5": oid, "relpath": "/".join(rel)}
+        if size is not None:
+            d["size"] = size
+        if isexec:
+            d["isexec"] = True
+        lst.append(d)
+    raw = json.dumps(lst, sort_keys=True).encode()
+    return raw, hashlib.md5(raw).hexdigest() + ".dir"  # noqa: S324
+
+
+def build_lazy(spec):
+    """an index whose directory entry at spec["mount"] is NOT loaded: its content is the tree object in the
+    object storage of the storage map and appears when diff lists the directory"""
+    from dvc_data.hashfile.hash_info import HashInfo
+    from dvc_data.hashfile.meta import Meta
+    from dvc_data.index import DataIndex, DataIndexEntry, ObjectStorage
+
+    odb = get_odb()
+    raw, oid = tree_listing(spec["files"])
+    if not odb.exists(oid):
+        odb.add_bytes(oid, raw)
+    mount = tuple(spec["mount"])
+    idx = DataIndex()
+    idx[mount] = DataIndexEntry(key=mount, meta=Meta(isdir=True), hash_info=HashInfo("md5", oid))
+    for k, m, h in spec.get("extra", []):
+        idx[tuple(k)] = mk_entry(k, m, h)
+    idx.storage_map.add_cache(ObjectStorage((), odb))
+    return idx
+
+
+def lazy_twin(spec):
+    """the explicitly built twin: what the lazy index holds once the directory has been loaded
+    (index.py:_load_from_object_storage)"""
+    mount = list(spec["mount"])
+    _, oid = tree_listing(spec["files"])
+    out = [[mount, {"isdir": True}, ["md5", oid]]]
+    dirs = set()
+    for rel, foid, size, isexec in spec["files"]:
+        m = {"md5": foid}
+        if size is not None:
+            m["size"] = size
+        if isexec:
+            m["isexec"] = True
+        out.append([mount + list(rel), m, ["md5", foid]])
+        for i in range(1, len(rel)):
+            dirs.add(tuple(rel[:i]))
+    for d in sorted(dirs):
+        out.append([mount + list(d), {"isdir": True}, None])
+    return out + [list(e) for e in spec.get("extra", [])]
+
+
 def build_side(entries, hist):
     if entries is None or hist is None:
         return build_index(entries), None
+    if isinstance(hist, dict):
+        return build_lazy(hist), None
     return apply_hist(hist)
 
 
@@ -301,7 +371,7 @@ def c_index(entries):
 
 def c_side(entries, hist):
     """a side of a diff case as a Coq term: the literal map, or [final_map] of its build history"""
-    if entries is None or hist is None:
+    if entries is None or hist is None or isinstance(hist, dict):
         return c_index(entries)
     ops = []
     for op in hist:
@@ -940,7 +1010,7 @@ def is_antichain(roots):
     return not any(a != b and b[: len(a)] == a for a in rs for b in rs)
 
 
-def roots_problems(old, new, roots, code, res):
+def roots_problems(old, new, roots, code, res, hist=None):
     """oracle for one `roots=` run: for prefix-free roots and shallow=False the output is the flat
     reference restricted to the keys at or below a root"""
     f = opt_flags(code)
@@ -953,7 +1023,7 @@ def roots_problems(old, new, roots, code, res):
         return []
     plain = res[1]
     if f["with_renames"] and old is not None and new is not None:
-        pres = real_diff(old, new, code & ~1, roots=roots)
+        pres = real_diff(old, new, code & ~1, roots=roots, hist=hist)
         plain = pres[1] if pres[0] == "ok" else []
     got = collections.Counter((c[0], c[1] and c[1]["key"], c[2] and c[2]["key"]) for c in plain)
     ref = collections.Counter({x: n for x, n in flat_reference(old, new, f).items()
@@ -968,20 +1038,112 @@ def roots_problems(old, new, roots, code, res):
 def judge_roots(ctx, case):
     """`roots=` runs: model = implementation always, plus roots_problems"""
     old, new, roots, codes = case["old"], case["new"], case["roots"], case["codes"]
+    hist = case.get("hist")
     expected = []
     eff = [tuple(r) for r in roots] or [()]
     for code in codes:
-        res = real_diff(old, new, code, roots=roots)
+        res = real_diff(old, new, code, roots=roots, hist=hist)
         expected.append(val_result(res))
         one = {"old": old, "new": new, "roots": roots, "code": code, "stream": "roots"}
+        if hist:
+            one["hist"] = hist
         ctx.case(one, res[0] == "ok" and len(res[1]) >= 2)
         ctx.count("roots:" + ("antichain" if is_antichain(eff) else "overlapping"))
         ctx.count("roots:n=%d" % len(roots))
-        for sig, what in roots_problems(old, new, roots, code, res):
+        for sig, what in roots_problems(old, new, roots, code, res, hist=hist):
             ctx.oracle_fail(sig, what, one)
     inp = "(%s, %s, %s, %s)" % (c_index(old), c_index(new), clist([c_key(r) for r in roots]),
                                 clist([cN(c) for c in codes]))
     return (case, inp, vL(expected))
+
+
+def gen_lazy_files(rng):
+    files = {}
+    for _ in range(rng.choice([1, 2, 3, 4, 5, 6])):
+        rel = tuple(rng.choice(NAMES) for _ in range(rng.choice([1, 1, 2, 2, 3])))
+        if any(rel[: len(k)] == k or k[: len(rel)] == rel for k in files):
+            continue
+        files[rel] = [hashlib.md5(rng.choice(CONTENTS).encode()).hexdigest(),  # noqa: S324
+                      rng.choice([None, None, 1, 2]), rng.random() < 0.2]
+    return files
+
+
+def perturb_lazy(rng, files, p):
+    out = {}
+    for rel, (oid, size, ex) in files.items():
+        r = rng.random()
+        if r < p * 0.25:
+            continue
+        if r < p * 0.5:
+            oid = hashlib.md5(rng.choice(CONTENTS).encode()).hexdigest()  # noqa: S324
+        elif r < p * 0.65:
+            size = rng.choice([None, 1, 2, 3])
+        elif r < p * 0.85:
+            moved = rel[:-1] + (rng.choice(NAMES),)
+            if not any(moved[: len(k)] == k or k[: len(moved)] == moved for k in list(files) + list(out)):
+                rel = moved
+        out[rel] = [oid, size, ex]
+    if rng.random() < p:
+        rel = tuple(rng.choice(NAMES) for _ in range(rng.choice([1, 2])))
+        if not any(rel[: len(k)] == k or k[: len(rel)] == rel for k in out):
+            out[rel] = [hashlib.md5(rng.choice(CONTENTS).encode()).hexdigest(), None, False]  # noqa: S324
+    return out
+
+
+def gen_lazy_bundles(ctx, n_codes):
+    """one pair of directory trees -> bundles: the lazily loaded indexes (directory object mounted at the ROOT
+    key () or below a key, one or both sides lazy, one side absent) against the explicitly built twins"""
+    rng = ctx.rng
+    base = gen_lazy_files(rng)
+    p = rng.choice([0.0, 0.3, 0.5, 0.8])
+    fo, fn = perturb_lazy(rng, base, p), perturb_lazy(rng, base, p)
+    mount = rng.choice([[], [], ["data"], ["a", "b"]])
+    extra_o, extra_n = [], []
+    if mount and rng.random() < 0.5:
+        extra_o = [[["x"], {"size": 1}, ["md5", "h1"]]]
+        extra_n = [[["x"], {"size": rng.choice([1, 2])}, ["md5", rng.choice(["h1", "h2"])]]] if rng.random() < 0.8 else []
+
+    def spec(files, extra):
+        return {"mount": mount, "files": [[list(k), v[0], v[1], v[2]] for k, v in sorted(files.items())],
+                "extra": extra}
+
+    so, sn = spec(fo, extra_o), spec(fn, extra_n)
+    shape = rng.choice(["both", "both", "both", "old-lazy", "new-lazy", "old-none", "new-none", "self"])
+    if shape == "self":
+        sn = copy.deepcopy(so)
+    old, new = lazy_twin(so), lazy_twin(sn)
+    hist = {"old": so if shape != "new-lazy" else None, "new": sn if shape != "old-lazy" else None}
+    if shape == "old-none":
+        old, hist["old"] = None, None
+    if shape == "new-none":
+        new, hist["new"] = None, None
+    if not (is_wf(old) and is_wf(new) and is_consistent(old, new) and is_consistent(new, old)):
+        ctx.count("generator:rejected-lazy")
+        return []
+    ctx.count("lazy:mount=" + ("root" if not mount else "/".join(mount)))
+    ctx.count("lazy:" + shape)
+    plain = sorted({c & ~32 for c in sample_codes(ctx, n_codes)} | {2})
+    out = [{"old": old, "new": new, "codes": plain, "stream": "lazy", "hist": hist}]
+    # shallow: the directory is never loaded; judged by the oracle only (keys not below a hashed entry)
+    out.append({"old": old, "new": new, "codes": sorted({32, 34, 32 | rng.randrange(32)}), "stream": "lazy",
+                "hist": hist, "no_corr": True})
+    return out
+
+
+def gen_lazy_roots(ctx, bundle):
+    rng = ctx.rng
+    mount = None
+    for side in ("old", "new"):
+        h = bundle["hist"].get(side)
+        if h:
+            mount = h["mount"]
+            names = sorted({f[0][0] for f in h["files"]})
+    if mount is None:
+        return None
+    cands = [mount] + [mount + [n] for n in names] + [mount + ["zz"]] + ([[]] if mount else [])
+    roots = [rng.choice(cands) for _ in range(rng.choice([1, 1, 2]))]
+    return {"old": bundle["old"], "new": bundle["new"], "roots": roots, "hist": bundle["hist"],
+            "codes": sorted({c & ~32 for c in sample_codes(ctx, 3)}), "stream": "roots"}
 
 
 def corpus_cases():
@@ -1001,7 +1163,7 @@ def judge(ctx, case):
     """run one (old, new, codes) bundle on the implementation; oracle; returns the Coq item"""
     old, new, codes = case["old"], case["new"], case["codes"]
     hist = case.get("hist")
-    wf = case["stream"] in ("wf", "disk")
+    wf = case["stream"] in ("wf", "disk", "lazy")
     expected = []
     for code in codes:
         res = real_diff(old, new, code, hist=hist)
@@ -1019,6 +1181,8 @@ def judge(ctx, case):
         if wf:
             for sig, what in oracle(old, new, code, res, hist=hist):
                 ctx.oracle_fail(sig, what, one if hist else shrink(ctx, one, sig))
+    if case.get("no_corr"):
+        return None
     h = hist or {}
     inp = "(%s, %s, %s)" % (c_side(old, h.get("old")), c_side(new, h.get("new")), clist([cN(c) for c in codes]))
     return (case, inp, vL(expected))
@@ -1089,7 +1253,14 @@ def run(ctx):
         ctx.count("stream:disk")
         bundles.append({"old": o2, "new": n2, "codes": codes, "stream": "disk", "hist": hist})
 
-    items = [judge(ctx, b) for b in bundles]
+    # lazily loaded directory entries (object storage in the storage map), mounted at the root key or below
+    lazy_main = []
+    for _ in range(ctx.n(30, 400)):
+        bs = gen_lazy_bundles(ctx, max(3, n_codes // 2))
+        bundles += bs
+        lazy_main += bs[:1]
+
+    items = [it for it in (judge(ctx, b) for b in bundles) if it is not None]
     ctx.obligation("oracle:diff", not any(v.kind == "oracle" for v in ctx.violations),
                    f"{sum(len(b['codes']) for b in bundles if b['stream'] == 'wf')} real diffs judged by the flat "
                    "dictionary oracle (+ swap, no-hiding, rename rules, key uniqueness)")
@@ -1107,6 +1278,11 @@ def run(ctx):
         rcase = {"old": old, "new": new, "roots": roots, "codes": sample_codes(ctx, max(3, n_codes // 2)),
                  "stream": "roots"}
         ritems.append(judge_roots(ctx, rcase))
+    for b in lazy_main[: ctx.n(15, 200)]:
+        rcase = gen_lazy_roots(ctx, b)
+        if rcase:
+            ctx.count("roots:lazy")
+            ritems.append(judge_roots(ctx, rcase))
     ctx.obligation("oracle:roots", not any(v.kind == "oracle" and "roots" in str(v.signature) for v in ctx.violations),
                    f"{len(ritems)} (old, new, roots) bundles; prefix-free roots judged by the restricted flat reference")
     ctx.correspond("diff_roots", IMPORTS, "option index * option index * list key * list N",
@@ -1133,13 +1309,15 @@ def run(ctx):
 def replay_case(ctx, case):
     if "decider" in case:
         return {"violates": False, "note": "decider table case; see the correspondence obligation"}
+    if case.get("hist") and _DISK["dir"] is None:
+        _DISK["dir"] = ctx.fresh("disk")
     if case.get("stream") == "roots":
         codes = case.get("codes") or [case["code"]]
         out, problems = [], []
         for c in codes:
-            res = real_diff(case["old"], case["new"], c, roots=case["roots"])
+            res = real_diff(case["old"], case["new"], c, roots=case["roots"], hist=case.get("hist"))
             out.append({"code": c, "options": opt_flags(c), "result": res})
-            problems += roots_problems(case["old"], case["new"], case["roots"], c, res)
+            problems += roots_problems(case["old"], case["new"], case["roots"], c, res, hist=case.get("hist"))
         return {"results": out, "problems": problems, "violates": bool(problems)}
     codes = case.get("codes") or [case["code"]]
     out = []
